@@ -1,0 +1,139 @@
+//! Verification hooks. Only compiled with `--cfg nuts_rs_verif`; never part of a normal build.
+//!
+//! This module re-exports items of private modules and wraps `pub(crate)` functions so that an
+//! external test harness can drive the NUTS kernel, the integrator, the transformations, the
+//! adaptation estimators and the storage traits directly. Nothing here changes behaviour.
+
+use crate::Math;
+
+pub use crate::chain::{AdaptStrategy, NutsChain};
+pub use crate::dynamics::{
+    Direction, DivergenceInfo, Hamiltonian, LeapfrogResult, Point, State, StatePool,
+    TransformedHamiltonian, TransformedPoint,
+};
+pub use crate::nuts::{Collector, NutsOptions, SampleInfo};
+pub use crate::stepsize::{Adam, DualAverage, DualAverageOptions};
+pub use crate::storage::{ChainStorage, StorageConfig, TraceStorage};
+pub use crate::transform::VerifMassMatrixAdaptStrategy as MassMatrixAdaptStrategy;
+pub use crate::transform::{ExternalTransformation, LowRankMassMatrixStrategy, Transformation};
+
+pub type DiagMassMatrix<M> = crate::transform::DiagMassMatrix<M>;
+pub type LowRankMassMatrix<M> = crate::transform::LowRankMassMatrix<M>;
+pub type DiagAdaptStrategy<M> = crate::transform::DiagAdaptStrategy<M>;
+pub type StepSizeStrategy = crate::stepsize::Strategy;
+pub type GlobalStrategy<M, A> = crate::adapt_strategy::GlobalStrategy<M, A>;
+pub type DrawGradCollector<M> =
+    <DiagAdaptStrategy<M> as MassMatrixAdaptStrategy<M>>::Collector;
+
+/// `nuts::draw`: one NUTS transition.
+pub fn nuts_draw<M, H, R, C>(
+    math: &mut M,
+    init: &mut State<M, H::Point>,
+    rng: &mut R,
+    hamiltonian: &mut H,
+    options: &NutsOptions,
+    collector: &mut C,
+) -> Result<(State<M, H::Point>, SampleInfo), crate::NutsError>
+where
+    M: Math,
+    H: Hamiltonian<M>,
+    R: rand::Rng + ?Sized,
+    C: Collector<M, H::Point>,
+{
+    crate::nuts::draw(math, init, rng, hamiltonian, options, collector)
+}
+
+// ---- diagonal transformation ------------------------------------------------------------
+
+pub fn diag_new<M: Math>(math: &mut M, store_mass_matrix: bool) -> DiagMassMatrix<M> {
+    DiagMassMatrix::new(math, store_mass_matrix)
+}
+
+pub fn diag_set<M: Math>(
+    mm: &mut DiagMassMatrix<M>,
+    math: &mut M,
+    stds: &M::Vector,
+    mean: &M::Vector,
+) {
+    mm.set_transform(math, stds, mean)
+}
+
+pub fn diag_stds<M: Math>(mm: &DiagMassMatrix<M>) -> &M::Vector {
+    mm.stds()
+}
+
+pub fn diag_inv_stds<M: Math>(mm: &DiagMassMatrix<M>) -> &M::Vector {
+    mm.inv_stds()
+}
+
+pub fn diag_mean<M: Math>(mm: &DiagMassMatrix<M>) -> &M::Vector {
+    mm.mean()
+}
+
+pub fn diag_logdet<M: Math>(mm: &DiagMassMatrix<M>) -> f64 {
+    mm.logdet()
+}
+
+// ---- point accessors ----------------------------------------------------------------------
+
+pub fn point_velocity<M: Math>(p: &TransformedPoint<M>) -> &M::Vector {
+    &p.velocity
+}
+
+pub fn point_velocity_mut<M: Math>(p: &mut TransformedPoint<M>) -> &mut M::Vector {
+    &mut p.velocity
+}
+
+pub fn point_transformed_position<M: Math>(p: &TransformedPoint<M>) -> &M::Vector {
+    &p.transformed_position
+}
+
+pub fn point_transformed_gradient<M: Math>(p: &TransformedPoint<M>) -> &M::Vector {
+    &p.transformed_gradient
+}
+
+// ---- adaptation estimators ----------------------------------------------------------------
+
+/// Fill a mass-matrix collector as `register_draw` would for the given draw.
+pub fn collector_set<M: Math>(
+    collector: &mut DrawGradCollector<M>,
+    math: &mut M,
+    draw: &[f64],
+    grad: &[f64],
+    is_good: bool,
+) {
+    math.read_from_slice(&mut collector.draw, draw);
+    math.read_from_slice(&mut collector.grad, grad);
+    collector.is_good = is_good;
+}
+
+pub fn collector_is_good<M: Math>(collector: &DrawGradCollector<M>) -> bool {
+    collector.is_good
+}
+
+/// A free-standing point holding the given position and gradient (for estimator `init`).
+pub fn make_point<M: Math>(math: &mut M, position: &[f64], gradient: &[f64]) -> TransformedPoint<M> {
+    let mut point = <TransformedPoint<M> as Point<M>>::new(math);
+    math.read_from_slice(&mut point.untransformed_position, position);
+    math.read_from_slice(&mut point.untransformed_gradient, gradient);
+    point
+}
+
+/// `Progress` is `#[non_exhaustive]`; storage backends need one per recorded draw.
+pub fn make_progress(
+    draw: u64,
+    chain: u64,
+    diverging: bool,
+    tuning: bool,
+    step_size: f64,
+    num_steps: u64,
+) -> crate::Progress {
+    crate::Progress {
+        draw,
+        chain,
+        diverging,
+        tuning,
+        step_size,
+        num_steps,
+    }
+}
